@@ -87,12 +87,15 @@ def main():
     ap.add_argument("--suite", action="store_true")
     ap.add_argument("--tier", default="quick")
     ap.add_argument("--seeded", action="store_true", help="also run /verif/seeded/*/patch.diff")
+    ap.add_argument("--seeded-only", action="store_true", help="run only /verif/seeded/*/patch.diff")
     ap.add_argument("--checks", help="comma list of checks to run instead of the mutant's own property")
     ap.add_argument("--update-meta", action="store_true", help="record the result under 'recheck' in seeded/<id>/meta.json")
     a = ap.parse_args()
     only = set(a.only.split(",")) if a.only else None
     todo = []
-    for m in MUTANTS:
+    if a.seeded_only:
+        a.seeded = True
+    for m in ([] if a.seeded_only else MUTANTS):
         if only and m["property"] not in only:
             continue
         if a.mutant and m["id"] != a.mutant:
